@@ -67,8 +67,8 @@ ADDED = {
  "C04": "queries at reorganisation points and after restarts, long stores (2000+ header paths, farthest pairs), by-height windows at the 32-bit limits and with negative start or length, and for two stored headers of which neither descends from the other the same-chain error is required (unless the would-be ancestor lies above the header).",
  "C05": "faults after which ingestion carries on in the same process, COMMITs refused inside SQLite (deferred foreign key raised by a trigger), reorganisations over 520 / 2010 heights, restarts onto a prepared-database configuration, a child of the earlier tip submitted right after a failed submission, a first start killed before the genesis insert.",
  "C06": "single-peer syncs are judged at the quiescence that follows the initial sync, before anything is announced (also after a scripted loss of the first connection once the re-dial was seen); slack rounds re-announce the same tip; peers lost before their version / between version and verack / right after the handshake, peers that answer beyond the stop hash, report a height below their chain, reorganise between announcements, batch their inv announcements; stores with a stale fork taller than the peer's chain; a registered webhook whose endpoint accepts every delivery and answers none (a sync that only completes once the endpoint answers is reported); thorough tier: 135 s idle periods in which the sync manager's periodic check drops the quiet sync peer.",
- "C07": "re-offence after an elapsed ban over a connection the host kept, offenders that behave after one offence, a forbidden header exactly at a checkpoint height, checkpoint-advance scenarios on both engines with nodes that answer beyond the stop hash (a checkpoint header in the middle of a message, several checkpoints in one message) and an exact stop-hash oracle (each request stops at the first checkpoint above what has been delivered; zero or an announced block after the last), offenders that first send a message with an unknown command (experimental engine) or that are no full nodes and push their headers right after the handshake (default engine).",
- "C08": "page sizes at and beyond the 32-bit limits, near misses of stored keys (case, a digit cut or appended, 0x prefix, byte-reversed), walks with restarts between pages, walks after a reorganisation was interrupted by a failing relabelling statement, a 2081-block chain after a 2050-deep reorganisation, walks after two competing children of the tip were submitted by two goroutines at once.",
+ "C07": "re-offence after an elapsed ban over a connection the host kept, offenders that behave after one offence, a forbidden header exactly at a checkpoint height, checkpoint-advance scenarios on both engines with nodes that answer beyond the stop hash (a checkpoint header in the middle of a message, several checkpoints in one message) and an exact stop-hash oracle (each request stops at the first checkpoint above what has been delivered; zero or an announced block after the last), offenders that first send a message with an unknown command (experimental engine) or that are no full nodes and push their headers right after the handshake (default engine), hit-and-run offenders, and repentant offenders whose host goes away with the offending connection: the service's re-dial of the banned host is awaited and must not stay admitted.",
+ "C08": "page sizes at and beyond the 32-bit limits, near misses of stored keys (case, a digit cut or appended, 0x prefix, byte-reversed), walks with restarts between pages, walks after a reorganisation was interrupted by a failing relabelling statement, a 2081-block chain after a 2050-deep reorganisation, walks after two competing children of the tip were submitted by two goroutines at once (the first to reach its INSERT waits up to 5 ms for the other).",
  "C09": "near-valid and case-swapped credentials, a revocation whose COMMIT is refused, configuration points with debug logging (gin in debug mode), a user token used on DELETE /access/:token with its own value, requests of the none/unknown/revoked classes dressed up as websocket upgrades.",
  "C10": "revocations and creations whose statements fail or whose COMMIT is refused, revocation under an exclusive lock held by another connection, bursts of creations, many simultaneous websocket connections with one token, revocation while clients keep authenticating (a look-up that starts after the acknowledged revocation must fail), admin-derived unknown tokens.",
  "C11": "two goroutines delivering the same header at the same moment, the production webhook client against real HTTP servers (500 / dropped connection / 503 in turn), a flaky healthy webhook, bursts of 300-500 headers while the websocket publisher is blocked, webhooks registered with bearer / custom header / no authorisation and URLs with upper-case letters, a trailing slash and a query (a POST to any other URL is reported), webhooks switched off by max_tries failures and registered again (exactly one event for every header stored afterwards).",
